@@ -251,7 +251,7 @@ func runScenario(seed int64, scen int, bonus bool, steps int, shape []ShapeStep,
 		}
 	}
 	// let the lockups run out and be claimed
-	for i := 0; i < 14; i++ {
+	for i := 0; i < 12; i++ {
 		g.submitClaims(i%3 == 0)
 		g.mineWith(g.Head, Profile{Layout: "plain", Byte: uint8(i % 2)}, orders[i%len(orders)])
 	}
